@@ -52,13 +52,16 @@ def gen_cases(rng, n):
                 # every group inside one block: keep the members of a group adjacent (any order of groups)
                 order = list(present)
                 rng.shuffle(order)
-                idx = sorted(range(m), key=lambda i: (labels[i] == "nan", order.index(labels[i]) if labels[i] != "nan" else 0))
+                idx = sorted((i for i in range(m) if labels[i] != "nan"), key=lambda i: order.index(labels[i]))
+                for i in (i for i in range(m) if labels[i] == "nan"):
+                    idx.insert(rng.randint(0, len(idx)), i)      # elements with a missing label may sit in any block
                 c["labels"] = [labels[i] for i in idx]
                 c["vals"] = [c["vals"][i] for i in idx]
-                c["chunks"] = [[m]] if rng.random() < 0.4 else None
+                c["chunks"] = [[m]] if rng.random() < 0.3 else None
                 if c["chunks"] is None:
-                    # cut only at group boundaries
-                    cuts = [i for i in range(1, m) if c["labels"][i] != c["labels"][i - 1]]
+                    # cut only where no group continues across the cut
+                    cl = c["labels"]
+                    cuts = [i for i in range(1, m) if not ({x for x in cl[:i] if x != "nan"} & {x for x in cl[i:] if x != "nan"})]
                     pts = [0] + sorted(rng.sample(cuts, k=rng.randint(0, len(cuts)))) + [m]
                     c["chunks"] = [[b - a for a, b in zip(pts, pts[1:])]]
             else:
